@@ -99,7 +99,7 @@ def specs(draw, tier="quick"):
         n = draw(st.one_of(st.integers(0, 6), st.integers(0, 6), st.integers(10, 13)))
         spec["members"] = [draw(member(dim, cls, modes, hetero, maxn=4 if n < 10 else 2)) for _ in range(n)]
         spec["times"] = [draw(st.lists(_time, min_size=len(m), max_size=len(m))) for m in spec["members"]]
-    if not hetero and draw(st.integers(0, 59)) == 0:
+    if not hetero and draw(st.integers(0, 59)) == 29:  # (not 0 or 59: Hypothesis favours the ends of an integer range)
         # large collections (beyond block sizes, buffer lengths and key widths): many droplets in one member, or many members;
         # the additional content is a pure function of (n, seed) and is expanded when the case is built
         ladder = [33, 130, 257, 300, 1025, 1100] if tier == "quick" else [33, 130, 257, 300, 1025, 1100, 2050, 4100]
